@@ -78,3 +78,142 @@ def _run_shard(spec):
 
 CHECK.plan = _plan
 CHECK.run_shard = _run_shard
+
+
+# ---------------------------------------------------------------- flat multi-digraphs, pre-declared back edges
+# "Iterating a graph" is not restricted to closed CFGs: any graph with a unique
+# head from which every block is reachable can be iterated - including blocks
+# with parallel arcs to the same target (('3', '3')), self loops, three
+# successors, and arcs already declared back edges.  Such graphs are iterated
+# flat; the stages are then tried (they may refuse a graph outside their
+# domain, which is not this property's business) and the iteration oracle runs
+# at every quiescent point that is reached.
+import itertools as _it
+
+from .. import core as _core, drivers as _drivers
+from . import predeclared as _pre
+
+_plan1 = CHECK.plan
+_run1 = CHECK.run_shard
+
+
+def _plan2(tier, seed):
+    shards = _plan1(tier, seed)
+    quick = tier == "quick"
+    shards.append({"kind": "multi_exh", "n": 3, "tier": tier})
+    if not quick:
+        shards.append({"kind": "multi_exh", "n": 4, "tier": tier, "maxdeg": 2})
+    total = 2000 if quick else 60000
+    per = 250 if quick else 3000
+    for start in range(0, total, per):
+        shards.append({"kind": "multi_rand", "seed": seed, "start": start, "count": per,
+                       "tier": tier})
+    shards += _pre.plan(tier, seed)
+    return shards
+
+
+def _iterable(gd, be):
+    """unique head and everything reachable from it along non-back arcs"""
+    fw = {k: [t for t in v if t not in (be or {}).get(k, ())] for k, v in gd.items()}
+    targeted = {t for v in fw.values() for t in v}
+    heads = [k for k in gd if k not in targeted]
+    if len(heads) != 1:
+        return False
+    seen = {heads[0]}
+    st = [heads[0]]
+    while st:
+        for t in fw[st.pop()]:
+            if t not in seen:
+                seen.add(t)
+                st.append(t)
+    return len(seen) == len(gd)
+
+
+def _multi_case(gd, be, acc, payload="basic"):
+    if not _iterable(gd, be):
+        acc.counters["multi.skipped_not_iterable"] += 1
+        return
+    ctx = _core.set_ctx(_core.Ctx(None))
+    _attach.ACTIVE.clear()
+    _attach.ACTIVE.update({"C16"})
+    _attach.OPTS["lenient"] = True
+    _attach.OPTS["wellformed_only"] = True
+    try:
+        scfg = _drivers.make_scfg(gd, payload, "ctor", backedges=be)
+        done = _drivers.run_stages(scfg, "JLB", ctx)
+    finally:
+        _attach.OPTS["lenient"] = False
+        _attach.OPTS["wellformed_only"] = False
+    acc.counters["class.flat_multi"] += 1
+    acc.counters["multi.stages_completed_%d" % len(done)] += 1
+    if any(len(set(v)) != len(v) for v in gd.values()):
+        acc.counters["multi.with_parallel_arcs"] += 1
+    if any(k in v for k, v in gd.items()):
+        acc.counters["multi.with_self_loops"] += 1
+    if be:
+        acc.counters["multi.with_declared_backedges"] += 1
+    case = {"kind": "multidigraph", "g": gd, "payload": payload}
+    if be:
+        case["backedges"] = {k: list(v) for k, v in be.items()}
+    acc.add_ctx(ctx, case, nontrivial_hash=_core.sha([gd, be]) if any(gd.values()) else None,
+                props={"C16"}, sample=(acc.evaluations % 499 == 0))
+
+
+def _run2(spec):
+    k = spec["kind"]
+    single = spec["case"].get("kind") if k == "single" else None
+    if k == "predeclared" or single == "predeclared":
+        return _pre.run_shard(spec, "C16", ("stage", "table", "iter"))
+    if k not in ("multi_exh", "multi_rand") and single != "multidigraph":
+        return _run1(spec)
+    _attach.install(("stage", "table", "iter"))
+    acc = _ShardAcc("C16")
+    if k == "single":
+        c = spec["case"]
+        _multi_case({a: tuple(b) for a, b in c["g"].items()},
+                    {a: tuple(b) for a, b in (c.get("backedges") or {}).items()} or None,
+                    acc, c.get("payload", "basic"))
+    elif k == "multi_exh":
+        n = spec["n"]
+        names = [str(i) for i in range(n)]
+        maxdeg = spec.get("maxdeg", 3)
+        opts = [()]
+        for d in range(1, maxdeg + 1):
+            opts += list(_it.product(names, repeat=d))  # ordered, duplicates and self loops allowed
+        for combo in _it.product(opts, repeat=n):
+            gd = dict(zip(names, combo))
+            _multi_case(gd, None, acc)
+    else:
+        for i in range(spec["start"], spec["start"] + spec["count"]):
+            rng = _random.Random(f"c16m/{spec['seed']}/{i}")
+            n = rng.randint(2, 9)
+            names = [str(j) for j in range(n)]
+            gd = {}
+            for j, nm in enumerate(names):
+                # arborescence arc keeps most graphs iterable, then extra arcs
+                ts = []
+                d = rng.choice([0, 1, 1, 2, 2, 3])
+                for _ in range(d):
+                    ts.append(rng.choice(names[1:]) if n > 1 else nm)
+                if ts and rng.random() < 0.35:
+                    ts.append(rng.choice(ts))  # parallel arc
+                    rng.shuffle(ts)
+                gd[nm] = tuple(ts)
+            for j in range(1, n):
+                if not any(names[j] in gd[p] for p in names[:j]):
+                    p = rng.choice(names[:j])
+                    gd[p] = gd[p] + (names[j],)
+            be = None
+            if rng.random() < 0.3:
+                be = {}
+                for nm in names:
+                    pick = [t for t in dict.fromkeys(gd[nm]) if rng.random() < 0.3]
+                    rng.shuffle(pick)
+                    if pick:
+                        be[nm] = tuple(pick)
+            _multi_case(gd, be or None, acc, rng.choice(["basic", "bytecode"]))
+    return acc.result()
+
+
+CHECK.plan = _plan2
+CHECK.run_shard = _run2
